@@ -491,13 +491,50 @@ static void quiet(SP& s)
    s.setIntParam(SP::VERBOSITY, 0);
 }
 
+static sigjmp_buf jb, probejb;
+static sigjmp_buf* volatile activejb = nullptr;
+static volatile int lastsig = 0;
+static bool handlers = true;
+static void onsig(int sig)
+{
+   lastsig = sig;
+
+   if(activejb != nullptr)
+      siglongjmp(*activejb, 1);
+
+   _exit(4);
+}
+
 // After setIntParam(SCALER, SCALER_OFF) on a persistently scaled LP, _scaler is null while the LP is still scaled and
-// coefReal / getRowVectorReal call a virtual function through it.  The harness reports that state instead of crashing
-// (C09_NOGUARD=1 in the environment disables the guard to demonstrate the crash).
+// coefReal / getRowVectorReal (as written) call a virtual function through it.  The harness probes one such call under
+// the signal handler and reports the state instead of dying; the LP is then read through SPxLPBase::getRowVectorUnscaled.
+// (C09_NOGUARD=1 in the environment disables the guard to demonstrate the crash.)
 static bool nullScaler(SP& s)
 {
    static bool noguard = getenv("C09_NOGUARD") != nullptr;
-   return !noguard && s._realLP->isScaled() && s._scaler == nullptr;
+
+   if(noguard || !(s._realLP->isScaled() && s._scaler == nullptr))
+      return false;
+
+   if(!handlers || s.numRows() == 0 || s.numCols() == 0)
+      return true;
+
+   sigjmp_buf* outer = activejb;
+   bool crashed = false;
+
+   if(sigsetjmp(probejb, 1) == 0)
+   {
+      activejb = &probejb;
+      DSVectorBase<double> r;
+      s.getRowVectorReal(0, r);
+      volatile double c = s.coefReal(0, 0);
+      (void)c;
+   }
+   else
+      crashed = true;
+
+   activejb = outer;
+   return crashed;
 }
 
 // the LP as the user sees it
@@ -844,14 +881,6 @@ static bool applyOp(SP& s, bool isB, const std::vector<std::string>& t, SPxSolve
    return true;
 }
 
-static sigjmp_buf jb;
-static volatile int lastsig = 0;
-static void onsig(int sig)
-{
-   lastsig = sig;
-   siglongjmp(jb, 1);
-}
-
 static void runUser(int scaler, bool persistent, int simp, const CaseLP& c, const std::vector<std::vector<std::string>>& ops)
 {
    // the objects are leaked on purpose when a signal aborts the case
@@ -927,7 +956,7 @@ int main(int argc, char** argv)
    if(argc >= 5)
       rundir = argv[4];
 
-   bool handlers = getenv("C09_NOHANDLER") == nullptr;
+   handlers = getenv("C09_NOHANDLER") == nullptr;
    std::ifstream in(argv[2]);
    std::string line;
    printf("INF %s\n", dy(soplex::infinity).c_str());
@@ -987,6 +1016,7 @@ int main(int argc, char** argv)
 
          if(!handlers || sigsetjmp(jb, 1) == 0)
          {
+            activejb = handlers ? &jb : nullptr;
             try
             {
                if(mode == "BARE")
